@@ -717,16 +717,16 @@ static void mode_hist(int shard, int nshards) {
             in.prm.put("precond.amg.ncycle", CYC[cy][1]); in.prm.put("precond.amg.pre_cycles", CYC[cy][2]);
             solver_params(in.prm, s, "right", in.par, 0, in.maxit, in.tol);
             if (s != "richardson") { in.dflt = 2; run_solve(in); continue; }
-            // Richardson: the reported residual after 8 and after 16 steps
+            // Richardson: the reported residual after 8 and after 40 steps
             double r[2]; bool ok = true;
             for (int b = 0; b < 2; ++b) {
-                solve_in q = in; q.cas = in.cas + "_rich" + std::to_string(8 * (b + 1)); q.maxit = 8 * (b + 1); q.tol = 1e-300;
+                solve_in q = in; q.cas = in.cas + "_rich" + std::to_string(b ? 40 : 8); q.maxit = b ? 40 : 8; q.tol = 1e-300;
                 q.prm.put("solver.maxiter", q.maxit); q.prm.put("solver.tol", 1e-300);
                 r[b] = run_solve(q); if (!(r[b] > 0) || !std::isfinite(r[b])) ok = false;
             }
             vr::obj o; o.str("k", "contract").str("mode", "cyc").str("fam", fam).str("coars", in.coars).str("relax", in.relax).i("cfg", cfgid)
                 .i("npre", CYC[cy][0]).i("ncyc", CYC[cy][1]).i("prec", CYC[cy][2]).i("ok", ok);
-            if (ok) o.i("r8", md(r[0])).i("r16", md(r[1]));
+            if (ok) o.i("r8", md(r[0])).i("r40", md(r[1]));
             vr::emit(o.done());
         }
     }
